@@ -1,17 +1,93 @@
 /-
-  HotXL.Model.Fn.Logic — builtin functions of this family (filled in as the family is modelled).
-  `table` maps a registered function name to its model; a registered name with no entry
-  here is reported by the evaluator as `Value.other "unmodelled-builtin"`.
+  HotXL.Model.Fn.Logic — model of hotxlfp/formulas/logic.py
 -/
-import HotXL.Model.Basic
-import HotXL.Model.Operators
+import HotXL.Model.Fn.Common
 
 namespace HotXL.Fn.Logic
-open HotXL
+open HotXL HotXL.Ops HotXL.Fn
 
-/-- a builtin: evaluated arguments to a value, or a raised Python exception (as its error code) -/
-abbrev Builtin := List Value → Except Err Value
+/-- AND(*args) -/
+def AND : Builtin := fun args =>
+  let xs := flattenList args
+  match firstError xs with
+  | some e => .ok (.err e)
+  | none => .ok (.bool (xs.all pyTruthy))
 
-def table : List (String × Builtin) := []
+/-- OR(*args) -/
+def OR : Builtin := fun args =>
+  let xs := flattenList args
+  match firstError xs with
+  | some e => .ok (.err e)
+  | none => .ok (.bool (xs.any pyTruthy))
+
+/-- XOR(*args): parity of the number of true arguments -/
+def XOR : Builtin := fun args =>
+  let xs := flattenList args
+  match firstError xs with
+  | some e => .ok (.err e)
+  | none => .ok (.bool ((xs.filter pyTruthy).length % 2 = 1))
+
+/-- NOT(boolean) -/
+def NOT : Builtin
+  | [.err e] => .ok (.err e)
+  | [v] => .ok (.bool (!pyTruthy v))
+  | _ => .error .error
+
+/-- IF(test, then, otherwise) -/
+def IF : Builtin
+  | [.err e, _, _] => .ok (.err e)
+  | [t, a, b] => .ok (if pyTruthy t then a else b)
+  | _ => .error .error
+
+/-- IFERROR(value, value_if_error) -/
+def IFERROR : Builtin
+  | [.err _, y] => .ok y
+  | [v, _] => .ok v
+  | _ => .error .error
+
+/-- IFNA(value, value_if_na) -/
+def IFNA : Builtin
+  | [.err .na, y] => .ok y
+  | [v, _] => .ok v
+  | _ => .error .error
+
+/-- the `for i in range(0, argc, 2)` scan of SWITCH; `none` = no case matched.
+    With an odd `argc` the last element is the default and `args[i+1]` for it would be out of
+    range — the loop reaches it only if it compares equal to the target: IndexError. -/
+def switchScan (target : Value) : List Value → Option (Except Err Value)
+  | [] => none
+  | [c] => if pyEqValue target c then some (.error .error) else none
+  | c :: r :: rest => if pyEqValue target c then some (.ok r) else switchScan target rest
+
+/-- SWITCH(target, *args) -/
+def SWITCH : Builtin
+  | [] => .error .error
+  | .err e :: _ => .ok (.err e)
+  | target :: args =>
+    if args.length ≤ 1 then .ok (.err .na) else
+    match switchScan target args with
+    | some r => r
+    | none => if args.length % 2 = 0 then .ok (.err .na) else .ok (args.getLast?.getD .blank)
+
+/-- the `zip(args[::2], args[1::2])` scan of IFS -/
+def ifsScan : List Value → Value
+  | c :: v :: rest =>
+    match c with
+    | .err e => .err e
+    | _ => if pyTruthy c then v else ifsScan rest
+  | _ => .err .na
+
+def IFS : Builtin := fun args => .ok (ifsScan args)
+
+def TRUE : Builtin
+  | [] => .ok (.bool true)
+  | _ => .error .error
+def FALSE : Builtin
+  | [] => .ok (.bool false)
+  | _ => .error .error
+
+def table : List (String × Builtin) :=
+  [("AND", AND), ("OR", OR), ("XOR", XOR), ("NOT", NOT), ("IF", IF), ("IFERROR", IFERROR), ("IFNA", IFNA),
+   ("SWITCH", SWITCH), ("IFS", IFS), ("TRUE", TRUE), ("FALSE", FALSE)]
 
 end HotXL.Fn.Logic
